@@ -120,6 +120,9 @@ def check_files(mtjs):
     from ..runner import scratch
     from trees import grammaroutput, grammarinput
     mts = [model.MT.from_json(j) for j in mtjs]
+    for mt in mts:          # words the writers warn about (raw parentheses) and words that look like comments
+        for i, tk in enumerate(mt.toks):
+            tk['word'] = ['(', 'w', '#1', ')'][i % 4]
     case = {'files': True, 'bank': mtjs}
     out = []
 
@@ -204,7 +207,7 @@ def run_chunk(chunk):
     res = Result()
     cfgs = [None] + configs('thorough')
 
-    def do(bank):
+    def do(bank, files=True):
         js = [m.to_json() for m in bank]
         for cfg in cfgs:
             vs, rep = check_bank(js, cfg)
@@ -213,6 +216,8 @@ def run_chunk(chunk):
             res.outcome((tuple(m.key() for m in bank), repr(cfg), len(vs)))
             for v in vs:
                 res.violation(v['kind'], v['where'], v['case'], v['detail'], v['what'])
+        if not files:           # tags that no grammar file format can carry (missing tag): in-memory balance only
+            return
         vs = check_files(js)
         res.evals += 1
         res.nontrivial += 1 if rep else 0
@@ -223,12 +228,13 @@ def run_chunk(chunk):
         if chunk['kind'] == 'wide':
             # size probes: one node with L children, all tags equal / equal in the middle / alternating
             L = chunk['L']
-            for pos in (['x'] * L, ['d'] + ['x'] * (L - 2) + ['n'], ['x' if i % 2 else 'y' for i in range(L)]):
+            for pos in (['x'] * L, ['d'] + ['x'] * (L - 2) + ['n'], ['x' if i % 2 else 'y' for i in range(L)],
+                        [None] + ['x'] * (L - 1), [''] + ['x'] * (L - 2) + [None]):      # tags missing in the source (TIGER <t> without pos)
                 for nested in (False, True):
                     kids = tuple(range(1, L + 1))
                     root = ('VROOT', '--', (('A', '--', kids),)) if nested else ('VROOT', '--', kids)
                     mt = model.MT(1, model.mk_tokens(L, words=['w'] * L, pos=pos), root)
-                    do([mt])
+                    do([mt], files=None not in pos and '' not in pos)
             res.sample({'treebank': [model.mt_str(mt.root, mt.toks)], 'modes': len(cfgs)})
         elif chunk['kind'] == 'single':
             mt = None
